@@ -63,35 +63,26 @@ type syncObs struct {
 
 func init() { handlers["sync"] = syncHandler }
 
-type workerDaemon struct {
-	once sync.Once
-	port string
-	err  error
-}
-
-var wd workerDaemon
-
-func (w *workerCtx) daemon() (string, error) {
-	wd.once.Do(func() {
-		mods := []rsyncd.Module{
-			{Name: "src", Path: filepath.Join(w.dir, "s", "tree")},
-			{Name: "srcp", Path: filepath.Join(w.dir, "s")},
-			{Name: "dst", Path: filepath.Join(w.dir, "d"), Writable: true},
-		}
-		srv, err := rsyncd.NewServer(mods, rsyncd.WithStderr(discard{}), rsyncd.DontRestrict())
-		if err != nil {
-			wd.err = err
-			return
-		}
-		ln, err := net.Listen("tcp", "127.0.0.1:0")
-		if err != nil {
-			wd.err = err
-			return
-		}
-		_, wd.port, _ = net.SplitHostPort(ln.Addr().String())
-		go srv.Serve(context.Background(), ln)
-	})
-	return wd.port, wd.err
+// startDaemon starts a real daemon on a loopback port for ONE case: leftover
+// goroutines of an earlier (hung) case can never touch a later case's files.
+func startDaemon(base string) (port string, stop func(), err error) {
+	mods := []rsyncd.Module{
+		{Name: "src", Path: filepath.Join(base, "s", "tree")},
+		{Name: "srcp", Path: filepath.Join(base, "s")},
+		{Name: "dst", Path: filepath.Join(base, "d"), Writable: true},
+	}
+	srv, err := rsyncd.NewServer(mods, rsyncd.WithStderr(discard{}), rsyncd.DontRestrict())
+	if err != nil {
+		return "", nil, err
+	}
+	ln, err := net.Listen("tcp", "127.0.0.1:0")
+	if err != nil {
+		return "", nil, err
+	}
+	_, port, _ = net.SplitHostPort(ln.Addr().String())
+	ctx, cancel := context.WithCancel(context.Background())
+	go srv.Serve(ctx, ln)
+	return port, cancel, nil
 }
 
 type discard struct{}
@@ -123,16 +114,48 @@ func syncHandler(w *workerCtx, line []byte) (any, error) {
 	if obs.Judge == nil {
 		obs.Judge = []string{}
 	}
-	sdir := filepath.Join(w.dir, "s")
+	base := filepath.Join(w.dir, fmt.Sprintf("case%d", s.ID))
+	defer func() {
+		fstree.MakeWritable(base)
+		os.RemoveAll(base)
+	}()
+	sdir := filepath.Join(base, "s")
 	tree := filepath.Join(sdir, "tree")
-	ddir := filepath.Join(w.dir, "d")
+	ddir := filepath.Join(base, "d")
+	var port string
+	if s.Arr == "pull" || s.Arr == "push" {
+		p, stop, err := startDaemon(base)
+		if err != nil {
+			return nil, err
+		}
+		defer stop()
+		port = p
+	}
 	for _, d := range []string{sdir, ddir} {
 		if err := fstree.Reset(d); err != nil {
 			return nil, err
 		}
 	}
 	os.MkdirAll(tree, 0o755)
-	if err := fstree.Build(tree, s.Src); err != nil {
+	tree2 := filepath.Join(sdir, "tree2")
+	if s.Form == "multi" {
+		// two source arguments: everything below "d" comes from the second one
+		var s1, s2 []fstree.Node
+		for _, n := range s.Src {
+			if n.P == "d" || strings.HasPrefix(n.P, "d/") {
+				s2 = append(s2, n)
+			} else {
+				s1 = append(s1, n)
+			}
+		}
+		os.MkdirAll(tree2, 0o755)
+		if err := fstree.Build(tree, s1); err != nil {
+			return nil, fmt.Errorf("building source: %w", err)
+		}
+		if err := fstree.Build(tree2, s2); err != nil {
+			return nil, fmt.Errorf("building source: %w", err)
+		}
+	} else if err := fstree.Build(tree, s.Src); err != nil {
 		return nil, fmt.Errorf("building source: %w", err)
 	}
 	if err := fstree.Build(ddir, s.Dst); err != nil {
@@ -153,6 +176,17 @@ func syncHandler(w *workerCtx, line []byte) (any, error) {
 	var err error
 	if obs.Src, err = fstree.Snapshot(tree, known); err != nil {
 		return nil, err
+	}
+	if s.Form == "multi" {
+		more, err := fstree.Snapshot(tree2, known)
+		if err != nil {
+			return nil, err
+		}
+		for _, n := range more {
+			if n.P != "." {
+				obs.Src = append(obs.Src, n)
+			}
+		}
 	}
 	snapDst := func() ([]fstree.Node, []string, error) {
 		if _, err := os.Lstat(root); err != nil {
@@ -196,12 +230,12 @@ func syncHandler(w *workerCtx, line []byte) (any, error) {
 		var rerr error
 		switch s.Arr {
 		case "local":
-			rerr = runCmd(logb, append(append([]string{}, s.Flags...), srcArg, ddir+"/"))
-		case "pull":
-			port, err := w.daemon()
-			if err != nil {
-				return "harness", err.Error()
+			if s.Form == "multi" {
+				rerr = runCmd(logb, append(append([]string{}, s.Flags...), srcArg, tree2+"/", ddir+"/"))
+			} else {
+				rerr = runCmd(logb, append(append([]string{}, s.Flags...), srcArg, ddir+"/"))
 			}
+		case "pull":
 			url := "rsync://127.0.0.1:" + port + "/src/"
 			if s.Form == "noslash" {
 				url = "rsync://127.0.0.1:" + port + "/srcp/tree"
@@ -210,11 +244,11 @@ func syncHandler(w *workerCtx, line []byte) (any, error) {
 			}
 			rerr = runCmd(logb, append(append([]string{}, s.Flags...), url, ddir+"/"))
 		case "push":
-			port, err := w.daemon()
-			if err != nil {
-				return "harness", err.Error()
+			if s.Form == "multi" {
+				rerr = runCmd(logb, append(append([]string{}, s.Flags...), srcArg, tree2+"/", "rsync://127.0.0.1:"+port+"/dst/"))
+			} else {
+				rerr = runCmd(logb, append(append([]string{}, s.Flags...), srcArg, "rsync://127.0.0.1:"+port+"/dst/"))
 			}
-			rerr = runCmd(logb, append(append([]string{}, s.Flags...), srcArg, "rsync://127.0.0.1:"+port+"/dst/"))
 		case "lib", "libpush":
 			rerr = runLib(logb, &s, srcArg, ddir)
 		default:
